@@ -410,6 +410,19 @@ void run_meta(J const &plan, RunResult &res) {
   std::vector<std::map<long, MHill>> model((size_t)nw);
   std::vector<long> exchanges_since_fault((size_t)nw, 0);
   long checks = 0, mirrors_seen = 0, lagging = 0, liveness_checks = 0;
+  // which version of each peer's published state a walker last opened (file identities grow with every publication)
+  std::vector<std::vector<uint64_t>> seen_state((size_t)nw, std::vector<uint64_t>((size_t)nw, 0));
+  auto is_state_of = [](std::string const &path, int b) { std::string suf = ".w" + std::to_string(b) + ".state"; return path.size() >= suf.size() && path.compare(path.size() - suf.size(), suf.size(), suf) == 0; };
+  fs().on_open_read = [&seen_state, is_state_of, nw](int a, std::string const &path, uint64_t id) {
+    if (a < 0 || a >= nw) return;
+    for (int b = 0; b < nw; b++) if (b != a && is_state_of(path, b)) seen_state[(size_t)a][(size_t)b] = id;
+  };
+  struct HookGuard { ~HookGuard() { fs().on_open_read = nullptr; } } hook_guard;
+  auto peer_state_tag = [&](int a, int b) -> std::string {
+    uint64_t newest = 0;
+    for (auto const &kv : fs().files) if (is_state_of(kv.first, b)) newest = std::max(newest, kv.second->id);
+    return newest > seen_state[(size_t)a][(size_t)b] ? "/peer_state_republished_since_read" : "/peer_state_as_read";
+  };
   auto prefix_check = [&](int a, int b, colvarbias_meta *mirror, long step, bool must_be_complete_to, long complete_to) {
     std::vector<std::vector<double>> centres; std::vector<double> held;
     if (!held_energy(mirror, cx, centres, held)) return;
@@ -485,14 +498,14 @@ void run_meta(J const &plan, RunResult &res) {
       else if (dup) kind = "duplicate_hill";
       else if (gap) kind = "gap";
       else kind = "unexplained";
-      res.fail("meta_mirror", kind + (ws[(size_t)b].resumes || ws[(size_t)a].resumes ? "/after_resume" : ""),
+      res.fail("meta_mirror", kind + (kind == "gap" ? peer_state_tag(a, b) : std::string()) + (ws[(size_t)b].resumes || ws[(size_t)a].resumes ? "/after_resume" : ""),
                who + ": not the sum of the peer's hills up to any step; hills held (step x multiplicity):" + expl + "; unexplained residual " + fmt_double(left) + ", tolerance " + fmt_double(tol));
       (void)best_s;
       return;
     }
     if (!mh.empty() && matched_s < mh.rbegin()->first) lagging++;
     if (must_be_complete_to && matched_s < complete_to)
-      res.fail("meta_liveness", "mirror_incomplete", who + ": holds the peer's hills up to step " + std::to_string(matched_s) + " but the peer had flushed up to step " + std::to_string(complete_to) + " two exchanges ago");
+      res.fail("meta_liveness", "mirror_incomplete" + peer_state_tag(a, b), who + ": holds the peer's hills up to step " + std::to_string(matched_s) + " but the peer had flushed up to step " + std::to_string(complete_to) + " two exchanges ago");
   };
   // liveness bookkeeping: a global event counter orders the completion of steps across walkers
   long event_seq = 0;
